@@ -194,7 +194,11 @@ fn run_case(out: &mut impl Write, rng: &mut Rng) {
             sched.enter(tid);
             let mut res = Vec::new();
             for op in &prog {
-                res.push(run_op(&vec, op, ncols as usize));
+                // a panic inside an operation must not take the thread away from the scheduler (the others would wait forever)
+                res.push(match catch_unwind(AssertUnwindSafe(|| run_op(&vec, op, ncols as usize))) {
+                    Ok(r) => r,
+                    Err(_) => "panic".to_string(),
+                });
             }
             sched.leave();
             res
